@@ -17,7 +17,7 @@ git -C $W checkout -q -- . ; git -C $W clean -fdq
 srcs() { (cd $W; ls muduo/base/*.cc muduo/net/*.cc muduo/net/poller/*.cc | grep -v boilerplate;
           if grep -q "http/" $DEMO; then ls muduo/net/http/*.cc; fi;
           if grep -q "protorpc\|protobuf" $DEMO; then ls muduo/net/protobuf/*.cc; fi;
-          if grep -q "protorpc" $DEMO; then ls muduo/net/protorpc/*.cc; fi); }
+          if grep -q "protorpc" $DEMO; then ls muduo/net/protorpc/*.cc | grep -v _test; fi); }
 # demonstrations that use the RPC layer: generated protobuf sources (from the tree under test)
 GEN=""; GENI=""
 if grep -q "rpc.pb.h\|echo.pb.h" $DEMO; then
